@@ -764,6 +764,9 @@ enum Fault {
     Extend { file: String, by: usize },
     Delete { path: String },
     Rename { path: String, to: String },
+    /// rename an item file to the well-formed name of another range with the SAME start, keeping the length and crc
+    /// fields (the one kind of forged name the code can tell: the chunk table inside no longer fits the range)
+    RenameRange { path: String, to: String },
     PlantFile { path: String, size: usize },
     PlantDir { path: String },
 }
@@ -803,7 +806,7 @@ fn apply_fault(root: &Path, f: &Fault) {
                 let _ = std::fs::remove_file(&p);
             }
         },
-        Fault::Rename { path, to } => {
+        Fault::Rename { path, to } | Fault::RenameRange { path, to } => {
             let _ = std::fs::rename(root.join(path), root.join(to));
         },
         Fault::PlantFile { path, size } => {
@@ -844,6 +847,18 @@ fn faults_for(template: &Path, tier: Tier) -> Vec<Fault> {
         let parent = Path::new(f).parent().unwrap().to_string_lossy().to_string();
         for junk in ["junk", "AAAA", "not-base64-!!", ".leftover.tmp"] {
             v.push(Fault::Rename { path: f.clone(), to: format!("{parent}/{junk}") });
+        }
+        // the same item under the name of a narrower or wider range (same start, same length and crc fields)
+        if let Some(raw) = Path::new(f).file_name().and_then(|n| B64.decode(n.to_string_lossy().as_bytes()).ok()).filter(|r| r.len() == 20) {
+            let start = u32::from_le_bytes(raw[0..4].try_into().unwrap());
+            let end = u32::from_le_bytes(raw[4..8].try_into().unwrap());
+            let len = u64::from_le_bytes(raw[8..16].try_into().unwrap());
+            let crc = u32::from_le_bytes(raw[16..20].try_into().unwrap());
+            for new_end in start + 1..=4 {
+                if new_end != end {
+                    v.push(Fault::RenameRange { path: f.clone(), to: format!("{parent}/{}", item_file_name(&ChunkRange { start, end: new_end }, len, crc)) });
+                }
+            }
         }
     }
     for d in &dirs {
@@ -936,6 +951,10 @@ fn damage(tier: Tier, scratch: &Path, out: &mut Partial) -> u64 {
                 if matches!(f, Fault::FlipBits { .. }) {
                     cases.push((bi, f.clone(), true, cap, true));
                 }
+            }
+            // a renamed item and then the same items put again (the put meets the renamed item as a covering match)
+            if matches!(f, Fault::RenameRange { .. }) {
+                cases.push((bi, f.clone(), false, cap, true));
             }
             // deletion also while the cache is open
             if matches!(f, Fault::Delete { .. }) {
@@ -1191,7 +1210,7 @@ fn main() {
     run.set("traces_validated_against_impl", json!(transitions + schedules + dmg));
     run.assume("sequential consistency at switch-point granularity: switch points are the hooked acquisitions of DiskCache's state lock and every path-based file-system call under the cache root (libc interposition); fd-based reads/writes touch thread-private files and are not switch points; disk.rs contains no unsafe code");
     run.assume("eviction victims are an environment choice over a canonically sorted candidate list (hook H2); every choice is enumerated");
-    run.assume("chunk universe: 2 keys x 3 chunks with fixed per-(key,chunk) bytes, so every stored range of a key is mutually consistent; renames that keep length+CRC but forge the range are outside the damage alphabet (undetectable by design)");
+    run.assume("chunk universe: 2 keys x 3 chunks with fixed per-(key,chunk) bytes, so every stored range of a key is mutually consistent; renames that keep length+CRC and forge another START (or another key) are outside the damage alphabet (undetectable by design: the format checksums header and data, not key or range); renames to a narrower or wider range with the same start are in it");
     vcore::vfs::unwatch();
     let evaluations = transitions + schedules + dmg;
     run.all = out;
